@@ -53,6 +53,8 @@ MUTANTS = [
         return rtask;""")]),
     dict(name='c17-seed2-foreign-free-skips-object-start', prop='C17', clause='D1', edits=[(FE_CPP, """        FreeObject *objectToFree = block->findObjectToFree(object);
         block->freePublicObject(objectToFree);""", """        block->freePublicObject(static_cast<FreeObject*>(object));""")]),
+    dict(name='c19-seed6-stale-next-link-after-a-failed-cas', prop='C19', clause='D5', edits=[('include/oneapi/tbb/enumerable_thread_specific.h', '            for(;;) {\n                a->next = r;\n                call_itt_notify(releasing,a);\n                array* new_r = r;\n                if( my_root.compare_exchange_strong(new_r, a) ) break;\n                call_itt_notify(acquired, new_r);\n                __TBB_ASSERT(new_r != nullptr, nullptr);\n                if( new_r->lg_size >= s ) {\n                    // Another thread inserted an equal or  bigger array, so our array is superfluous.\n                    deallocate(a);\n                    break;\n                }\n                r = new_r;\n            }\n', '            a->next = r;\n            call_itt_notify(releasing,a);\n            // compare_exchange_strong reloads the current root into r when it fails\n            while( !my_root.compare_exchange_strong(r, a) ) {\n                call_itt_notify(acquired, r);\n                __TBB_ASSERT(r != nullptr, nullptr);\n                if( r->lg_size >= s ) {\n                    // Another thread inserted an equal or  bigger array, so our array is superfluous.\n                    deallocate(a);\n                    break;\n                }\n            }\n')]),
+    dict(name='c19-next-link-set-once-before-the-retry-loop', prop='C19', clause='D5', edits=[('include/oneapi/tbb/enumerable_thread_specific.h', '            for(;;) {\n                a->next = r;\n                call_itt_notify(releasing,a);\n                array* new_r = r;\n                if( my_root.compare_exchange_strong(new_r, a) ) break;\n                call_itt_notify(acquired, new_r);\n                __TBB_ASSERT(new_r != nullptr, nullptr);\n                if( new_r->lg_size >= s ) {\n                    // Another thread inserted an equal or  bigger array, so our array is superfluous.\n                    deallocate(a);\n                    break;\n                }\n                r = new_r;\n            }\n', '            a->next = r;\n            for(;;) {\n                call_itt_notify(releasing,a);\n                array* new_r = r;\n                if( my_root.compare_exchange_strong(new_r, a) ) break;\n                call_itt_notify(acquired, new_r);\n                __TBB_ASSERT(new_r != nullptr, nullptr);\n                if( new_r->lg_size >= s ) {\n                    // Another thread inserted an equal or  bigger array, so our array is superfluous.\n                    deallocate(a);\n                    break;\n                }\n                r = new_r;\n                continue;\n            }\n')]),
     dict(name='c19-seed5-table-swapped-without-its-key', prop='C19', clause='D5', edits=[('include/oneapi/tbb/enumerable_thread_specific.h', '       using std::swap;\n       __TBB_ASSERT(this!=&other, "Don\'t swap an instance with itself");\n       swap(my_key, other.my_key);\n       super::table_swap(other);', '       __TBB_ASSERT(this!=&other, "Don\'t swap an instance with itself");\n       super::table_swap(other);')]),
     dict(name='c19-table-swapped-without-its-count', prop='C19', clause='D5', edits=[('include/oneapi/tbb/enumerable_thread_specific.h', '       swap_atomics_relaxed(my_count, other.my_count);\n', '')]),
     dict(name='c19-seed2-ets-array-sized-from-root', prop='C19', clause='D5', edits=[('include/oneapi/tbb/enumerable_thread_specific.h',
@@ -1660,6 +1662,7 @@ MUTANTS += [
 ]
 
 BENIGN = [
+    dict(name='c19-b-cas-reloads-the-root-and-the-link-is-renewed', prop='C19', edits=[('include/oneapi/tbb/enumerable_thread_specific.h', '            for(;;) {\n                a->next = r;\n                call_itt_notify(releasing,a);\n                array* new_r = r;\n                if( my_root.compare_exchange_strong(new_r, a) ) break;\n                call_itt_notify(acquired, new_r);\n                __TBB_ASSERT(new_r != nullptr, nullptr);\n                if( new_r->lg_size >= s ) {\n                    // Another thread inserted an equal or  bigger array, so our array is superfluous.\n                    deallocate(a);\n                    break;\n                }\n                r = new_r;\n            }\n', '            for(;;) {\n                a->next = r;\n                call_itt_notify(releasing,a);\n                if( my_root.compare_exchange_strong(r, a) ) break;\n                call_itt_notify(acquired, r);\n                __TBB_ASSERT(r != nullptr, nullptr);\n                if( r->lg_size >= s ) {\n                    // Another thread inserted an equal or  bigger array, so our array is superfluous.\n                    deallocate(a);\n                    break;\n                }\n            }\n')]),
     dict(name='c10-b-accessor-hash-through-a-local', prop='C10', edits=[(CHM_H, '        result->my_hash = h;\n', '        { const hashcode_type whole_hash = h; result->my_hash = whole_hash; }\n')]),
     dict(name='c05-b-2d-ratio-comparison-in-a-local', prop='C05', edits=[('include/oneapi/tbb/blocked_range2d.h', '        if ( !my_rows.is_divisible() || (my_cols.is_divisible() &&\n             my_rows.size()*double(my_cols.grainsize()) < my_cols.size()*double(my_rows.grainsize())) ) {', '        const bool cols_larger = my_rows.size()*double(my_cols.grainsize()) < my_cols.size()*double(my_rows.grainsize());\n        if ( !my_rows.is_divisible() || (my_cols.is_divisible() && cols_larger) ) {')]),
     dict(name='c10-b-guarded-growth-through-a-local', prop='C10', edits=[(CHM_H, '#if TBB_USE_EXCEPTIONS\n            try\n#endif\n            {\n                this->enable_segment( grow_segment );\n            }\n#if TBB_USE_EXCEPTIONS\n            catch(...) {}\n#endif\n', '#if TBB_USE_EXCEPTIONS\n            try\n#endif\n            {\n                const segment_index_type seg = grow_segment;\n                this->enable_segment( seg );\n            }\n#if TBB_USE_EXCEPTIONS\n            catch(...) {}\n#endif\n')]),
